@@ -264,8 +264,8 @@ fn case(tier: Tier) -> impl Strategy<Value = C11Case> {
 
 fn run(r: &Run) {
     let t = r.tier;
-    r.prop("orders_and_threads", t.pick(500, 20_000), move || case(t), |c, ev| oracle(c, false, ev));
-    r.prop("fresh_processes", t.pick(48, 1_500), move || case(t), |c, ev| oracle(c, true, ev));
+    r.prop("orders_and_threads", t.pick(500, 12_000), move || case(t), |c, ev| oracle(c, false, ev));
+    r.prop("fresh_processes", t.pick(48, 800), move || case(t), |c, ev| oracle(c, true, ev));
 }
 
 fn replay(_r: &Run, check: &str, case: &Value) -> Option<Outcome> {
